@@ -86,6 +86,8 @@ class Potentials(Monitor):
         return self.refs[key], self.params[key]
 
     def on_potential_call(self, potential, name, args, kwargs, result, exc):
+        if self.busy:
+            return      # the harness itself is asking a copy
         ctx = self.ctx
         names = refenergy.base_names(potential)
         if exc is not None:
@@ -96,8 +98,6 @@ class Potentials(Monitor):
                 if name == "displacement":
                     detail["tiny_budget"] = self._tiny_budget(potential, args, kwargs)
                 ctx.violation(prop, name + "_raised", detail)
-            return
-        if self.busy:
             return
         self.calls += 1
         if name == "displacement" and "C02" in self.props:
@@ -110,8 +110,9 @@ class Potentials(Monitor):
     def _check_copies(self, prop, potential, names, name, args, kwargs, result):
         """What a dump / resume and the creation of further event handlers do to a potential: the deep copy and the
         dill round trip of the very object answer the same call with the same value (1 call in 25 per object)."""
-        if "CellBoundingPotential" in names:
-            return      # answers from the state its last call left behind; covered by C19 as part of the whole run
+        cell_bound = "CellBoundingPotential" in names
+        if cell_bound and name != "displacement":
+            return      # its derivative answers from the state its last displacement call left behind
         key = id(potential)
         count = self.copy_calls.get(key, 0)
         self.copy_calls[key] = count + 1
@@ -121,16 +122,32 @@ class Potentials(Monitor):
         import dill
         if key not in self.copies:
             try:
-                self.copies[key] = (potential, {"deep_copy": copy.deepcopy(potential),
-                                                "dill_round_trip": dill.loads(dill.dumps(potential))})
+                if cell_bound:
+                    # the bounds are stored per Cell object: the twin is asked with its own copies of the cells (a
+                    # twin that is asked only now and then does not share whatever the original remembers of its
+                    # previous calls; the displacement must be a function of the arguments alone)
+                    memo = {}
+                    self.copies[key] = (potential, {"deep_copy": copy.deepcopy(potential, memo)}, memo)
+                else:
+                    self.copies[key] = (potential, {"deep_copy": copy.deepcopy(potential),
+                                                    "dill_round_trip": dill.loads(dill.dumps(potential))}, None)
             except Exception as error:
-                self.copies[key] = (potential, {})
+                self.copies[key] = (potential, {}, None)
                 self.ctx.probes["potential_copy_failed_" + type(error).__name__] += 1
+        memo = self.copies[key][2]
         self.busy = True
         try:
             for variant, clone in self.copies[key][1].items():
                 try:
-                    again = getattr(clone, name)(*copy.deepcopy(args), **copy.deepcopy(kwargs))
+                    if memo is not None:
+                        translated = [memo.get(id(a), None) if type(a).__name__ == "Cell" else copy.deepcopy(a)
+                                      for a in args]
+                        if any(t is None for t in translated):
+                            self.ctx.probes["potential_copy_cell_without_twin"] += 1
+                            continue
+                        again = getattr(clone, name)(*translated, **copy.deepcopy(kwargs))
+                    else:
+                        again = getattr(clone, name)(*copy.deepcopy(args), **copy.deepcopy(kwargs))
                 except Exception as error:
                     self.ctx.violation(prop, name + "_raised_on_a_copy_of_the_potential",
                                        {"potential": potential.__class__.__name__, "copy": variant,
